@@ -188,6 +188,30 @@ def check(pid, tier, build, props):
                             "first: %r%s" % (unmet, met,
                                              (lht.get("consistency_unmet_examples") or ibt.get("consistency_unmet_examples") or [None])[:1],
                                              (" harness: %r" % herr[:1]) if herr else ""))
+    if pid == "C05":
+        # the universal conservation theorem for edits of one level (LevelCons.level_edit_conserves_b)
+        from . import ibcalls, loophcalls
+        lht = loophcalls.tie(tier, seed)
+        ibt = ibcalls.tie(tier, seed)
+        unmet = lht.get("level_edits_not_meeting_conservation_theorem_conditions", 0) + \
+            ibt.get("level_edits_not_meeting_conservation_theorem_conditions", 0)
+        met = lht.get("calls_meeting_conservation_theorem_conditions", 0) + \
+            ibt.get("calls_meeting_conservation_theorem_conditions", 0)
+        herr = (lht.get("harness_errors") or []) + (ibt.get("harness_errors") or [])
+        coverage["level_edit_conservation_theorem"] = {
+            "loop_restructure_helper_calls_meeting_the_conditions": lht.get("calls_meeting_conservation_theorem_conditions"),
+            "loop_restructure_helper_calls": lht.get("calls_compared"),
+            "insert_block_calls_meeting_the_conditions": ibt.get("calls_meeting_conservation_theorem_conditions"),
+            "insert_block_calls": ibt.get("calls_compared"),
+            "role": "C05_level_edit_conserves_b: a call that edits the dictionary of one level keeps every original "
+                    "block (payload, parent, back edges, successors position by position unchanged or renamed to an "
+                    "inserted block) and creates none, when cons_okb holds; evaluated per call"}
+        if unmet or herr or not met:
+            problems.append("the conditions of the universal conservation theorem for edits of one level "
+                            "(LevelCons.cons_okb) fail on %d calls of loop_restructure_helper / insert_block that are "
+                            "edits of one level (%d meet them), first: %r%s"
+                            % (unmet, met, (lht.get("conservation_unmet_examples") or ibt.get("conservation_unmet_examples") or [None])[:1],
+                               (" harness: %r" % herr[:1]) if herr else ""))
     return {"coverage": coverage, "violations": violations, "problems": problems,
             "level": "translation_validation", "wall_s": t.s(),
             "broken_name": "theorem %s / checker columns %s" % (THEOREM[pid], [COLNAME[c] for _, c in cols])}
